@@ -596,15 +596,23 @@ func runCheck(id, tier, only string, workers int, verbose bool) int {
 		"process death happens at verifhook.Point boundaries; a Badger commit is atomic and durable once it returned",
 		"stubs: zap, statsd and the event bus return zero values; cron registration is recorded, not fired; jwt.ParseWithClaims obeys its documented contract for the token shape the harness supplies",
 	)
-	os.MkdirAll(filepath.Join(verifDir, "evidence"), 0o755)
+	// evidence describes /repo itself: runs against another tree (a scratch worktree with a seeded
+	// change, a snapshot) or with VERIF_EVIDENCE_DIR set write it elsewhere
+	evDir := filepath.Join(verifDir, "evidence")
+	if v := os.Getenv("VERIF_EVIDENCE_DIR"); v != "" {
+		evDir = v
+	} else if repoDir != "/repo" {
+		evDir = filepath.Join(os.TempDir(), "verif-evidence-scratch")
+	}
+	os.MkdirAll(evDir, 0o755)
 	b, _ := json.MarshalIndent(ev, "", " ")
-	if err := os.WriteFile(filepath.Join(verifDir, "evidence", id+".json"), b, 0o644); err != nil {
+	if err := os.WriteFile(filepath.Join(evDir, id+".json"), b, 0o644); err != nil {
 		fmt.Fprintln(os.Stderr, "check: cannot write evidence:", err)
 		return 3
 	}
 	if only == "" {
 		// the last complete run of each tier is kept as well
-		_ = os.WriteFile(filepath.Join(verifDir, "evidence", id+"."+tier+".json"), b, 0o644)
+		_ = os.WriteFile(filepath.Join(evDir, id+"."+tier+".json"), b, 0o644)
 	}
 	fmt.Fprintf(os.Stderr, "[%s] tier=%s paths=%d states=%d validated=%d known=%d violations=%d inconclusive=%d wall=%.1fs\n", id, tier, totalPaths, totalStates, validated, len(knownLines), len(violLines), len(inconclusive), time.Since(t0).Seconds())
 	if len(violLines) > 0 {
